@@ -16,8 +16,8 @@ from mc import common, cache, fsx
 from mc.common import Stats
 
 CLOCK0 = 1500000000
-SIBLING = {'A': 'A2', 'A2': 'A', 'B': 'A', 'C': 'V', 'V': 'C'}
-OTHER = {'A': 'B', 'A2': 'B', 'B': 'A2', 'C': 'A', 'V': 'A'}
+SIBLING = {'A': 'A2', 'A2': 'A', 'B': 'A', 'C': 'V', 'V': 'C', 'L': 'L2', 'L2': 'L'}
+OTHER = {'A': 'B', 'A2': 'B', 'B': 'A2', 'C': 'A', 'V': 'A', 'L': 'A', 'L2': 'A'}
 
 
 def init_states(tier):
@@ -239,13 +239,17 @@ def conc_jobs(tier):
         jobs.append(('def', 'A@uonly', 'A', 'empty', None, 0, (True, True)))
         jobs.append(('def', 'A', 'A@ponly', 'empty', None, 0, (True, True)))
         jobs.append(('def', 'A@ponly', 'A@uonly', 'module(sibling)', 'sibling-', 0, (True, True)))
+        # LONG declarations (a cache file of more than 8 KiB) that differ in their last field only
+        jobs.append(('def', 'L', 'L2', 'module(same)+pyc', 'same+', 0, (True, True)))
+        jobs.append(('def', 'L', 'L2', 'module(same)', 'same-', 0, (True, True)))
+        jobs.append(('def', 'L', 'L2', 'empty', None, 0, (True, True)))
         jobs = [j + (None,) for j in jobs]
         for (d1, d2) in [('A', 'A2'), ('A', 'B')]:
             for iname in ('empty', 'module(sibling)'):
                 jobs.append(('noann', d1, d2, iname, init_states(tier)[iname] or None, 0, (True, True), 512))
         return jobs
     for opt in ('noann', 'def'):
-        for (d1, d2) in [('A', 'A'), ('A', 'A2'), ('A', 'B'), ('V', 'C'), ('A2', 'A2')]:
+        for (d1, d2) in [('A', 'A'), ('A', 'A2'), ('A', 'B'), ('V', 'C'), ('A2', 'A2'), ('L', 'L2')]:
             for iname, how in init_states(tier).items():
                 for ticks in (0, 1):
                     for wb in [(True, True), (True, False), (False, False)]:
